@@ -95,13 +95,6 @@ class BaseTestServer(ABC, Generic[_Request]):
             return
         self._ssl = kwargs.pop("ssl", None)
         self.runner = await self._make_runner(handler_cancellation=True, **kwargs)
-        try:
-            await self.runner.setup()
-        except BaseException:
-            # Exit the cleanup contexts entered before the failing startup step.
-            await self.runner.cleanup()
-            self.runner = None
-            raise
         absolute_host = self.host
         try:
             version = ipaddress.ip_address(self.host).version
@@ -110,10 +103,17 @@ class BaseTestServer(ABC, Generic[_Request]):
         if version == 6:
             absolute_host = f"[{self.host}]"
         family = socket.AF_INET6 if version == 6 else socket.AF_INET
-        _sock = self.socket_factory(self.host, self.port, family)
-        self.host, self.port = _sock.getsockname()[:2]
-        site = SockSite(self.runner, sock=_sock, ssl_context=self._ssl)
-        await site.start()
+        try:
+            await self.runner.setup()
+            _sock = self.socket_factory(self.host, self.port, family)
+            self.host, self.port = _sock.getsockname()[:2]
+            site = SockSite(self.runner, sock=_sock, ssl_context=self._ssl)
+            await site.start()
+        except BaseException:
+            # Exit the cleanup contexts entered before the failing startup step.
+            await self.runner.cleanup()
+            self.runner = None
+            raise
         server = site._server
         assert server is not None
         sockets = server.sockets
